@@ -6,6 +6,7 @@ import (
 	"errors"
 	"fmt"
 	"runtime"
+	"sort"
 	"strings"
 	"sync"
 	"sync/atomic"
@@ -773,6 +774,7 @@ func init() {
 	freeSharedOrder.register()
 	freeStagesCycle.register()
 	sharedWriter.register()
+	freeStagesOrder.register()
 }
 
 func TestC13_free(t *testing.T)        { freeOrder.run(t) }
@@ -909,3 +911,132 @@ var sharedWriter = &freeProp{ID: "C15", Sub: "shared-writer",
 }
 
 func TestC15_sharedwriter(t *testing.T) { sharedWriter.run(t) }
+
+// --- C13: a graph that is Run again after it was extended: a task added on top of a task that failed, was skipped
+// or never ran in the first Run must not be entered in the second (its dependency never returned nil) ---
+
+func checkFreeStagesOrder(c *FreeCase) error {
+	var mu sync.Mutex
+	okDone := map[string]bool{}   // tasks that have returned nil (in either Run)
+	failed := map[string]bool{}   // tasks that ran and returned an ordinary error
+	entered2 := map[string]bool{} // tasks entered during the second Run
+	var viol []string
+	deps2 := map[string][]string{}
+	mk := func(id string, out string, deps func() []string, spinN int) *dag.Task {
+		return dag.NewTask(id, func(ctx context.Context, opt *getoptions.GetOpt, args []string) error {
+			mu.Lock()
+			if args[0] == "1" {
+				for _, d := range deps() {
+					if !okDone[d] {
+						viol = append(viol, fmt.Sprintf("%s entered (first Run) although its dependency %s has not returned nil", id, d))
+					}
+				}
+			} else {
+				entered2[id] = true
+			}
+			mu.Unlock()
+			spin(spinN)
+			switch out {
+			case "err":
+				mu.Lock()
+				failed[id] = true
+				mu.Unlock()
+				return fmt.Errorf("failure of %s", id)
+			case "skip":
+				return dag.ErrorSkipParents
+			}
+			mu.Lock()
+			okDone[id] = true
+			mu.Unlock()
+			return nil
+		})
+	}
+	tasks := make([]*dag.Task, c.N)
+	for i := 0; i < c.N; i++ {
+		i := i
+		tasks[i] = mk(taskID(i), c.Out[i], func() []string { return ids(c.Deps[i]) }, c.Spin[i]/10)
+	}
+	g := buildFree("stages", c, c.Deps, tasks)
+	done := make(chan error, 1)
+	go func() { done <- g.Run(context.Background(), nil, []string{"1"}) }()
+	select {
+	case <-done:
+	case <-time.After(30 * time.Second):
+		return fmt.Errorf("inconclusive: first Run did not return within 30s")
+	}
+	// second stage: new tasks on top of existing ones
+	for k := 0; k < c.Stage2; k++ {
+		id := fmt.Sprintf("stage2-%02d", k)
+		for _, d := range c.Deps2[k] {
+			deps2[id] = append(deps2[id], taskID(d))
+		}
+		nt := mk(id, "ok", func() []string { return nil }, 0)
+		g.AddTask(nt)
+		for _, d := range c.Deps2[k] {
+			g.TaskDependsOn(nt, tasks[d])
+		}
+	}
+	go func() { done <- g.Run(context.Background(), nil, []string{"2"}) }()
+	select {
+	case <-done:
+	case <-time.After(30 * time.Second):
+		return fmt.Errorf("inconclusive: second Run did not return within 30s")
+	}
+	mu.Lock()
+	defer mu.Unlock()
+	// Tasks that never returned nil because a task failed: the failed ones and everything above them. (What a task
+	// added after a Run may expect from a dependency that returned ErrorSkipParents, or was skipped through it, in
+	// that earlier Run is not fixed by any statement and is not judged.)
+	dead := map[string]bool{}
+	for id := range failed {
+		dead[id] = true
+	}
+	for changed := true; changed; {
+		changed = false
+		for i := 0; i < c.N; i++ {
+			for _, d := range c.Deps[i] {
+				if dead[taskID(d)] && !dead[taskID(i)] && !okDone[taskID(i)] {
+					dead[taskID(i)], changed = true, true
+				}
+			}
+		}
+	}
+	for id := range entered2 {
+		for _, d := range deps2[id] {
+			if dead[d] {
+				viol = append(viol, fmt.Sprintf("%s, added after the first Run, was entered in the second Run although its dependency %s failed or was never started because of a failure", id, d))
+			}
+		}
+	}
+	if len(viol) > 0 {
+		sort.Strings(viol)
+		return fmt.Errorf("%s (first-Run outcomes %v, deps %v; tasks added before the second Run depend on %v)", viol[0], c.Out, c.Deps, c.Deps2)
+	}
+	return nil
+}
+
+var freeStagesOrder = &freeProp{ID: "C13", Sub: "stages-order",
+	Rule: "free-running: a random DAG whose tasks succeed, fail or return ErrorSkipParents is Run; then 1-4 new tasks are added to the SAME graph, each depending on 1-2 existing tasks (which may have failed, been skipped or never run), and the graph is Run again; first Run: every task function checks on entry that each direct dependency has returned nil; second Run: no added task may be entered when one of its dependencies failed, or never started because of a failure, in the first Run (dependencies that returned ErrorSkipParents in the earlier Run: not judged); distinct by case",
+	Gen: func(t *rapid.T) *FreeCase {
+		c := genFree(t, []string{"parallel", "parallel", "max", "serial"}, 6, false)
+		c.Out = make([]string, c.N)
+		for i := range c.Out {
+			c.Out[i] = "ok"
+			switch {
+			case chance(t, "err", 25):
+				c.Out[i] = "err"
+			case chance(t, "skip", 15):
+				c.Out[i] = "skip"
+			}
+		}
+		c.Stage2 = rapid.IntRange(1, 4).Draw(t, "stage2")
+		c.Deps2 = make([][]int, c.Stage2)
+		for k := range c.Deps2 {
+			c.Deps2[k] = rapid.SliceOfNDistinct(rapid.IntRange(0, c.N-1), 1, 2, rapid.ID[int]).Draw(t, "stage2deps")
+		}
+		return c
+	},
+	Check: checkFreeStagesOrder,
+}
+
+func TestC13_stagesorder(t *testing.T) { freeStagesOrder.run(t) }
